@@ -567,6 +567,44 @@ def run(ctx):
                        "output unescaped" % "; ".join(sorted(set(bad))), f.where(c.bb))
     ctx.count("C02.S3d pieces appended to safe buffers", n3d)
 
+    # ---- S6: which templates are auto-escaped at all.  The default callback compares the last extension of the template
+    # name (after an ignored `.j2`/`.jinja`/`.jinja2`) for equality with string constants; the documented HTML
+    # extensions must all select AutoEscape::Html, by equality on what `rsplit('.')` yields.
+    dc = "minijinja::defaults::default_auto_escape_callback"
+    if prog.has_fn(dc):
+        f = prog.fn(dc)
+        table = {}
+        for c in f.calls():
+            if not (c.name.endswith("::eq") and "PartialEq" in c.name) or len(c.args) < 2:
+                continue
+            lit = flow.const_str(c.args[1], f) or flow.const_str(c.args[0], f)
+            if lit is None:
+                continue
+            # variant built on the branch taken when the comparison is true
+            for sb in f.reachable:
+                if f.term(sb)["k"] != "switch":
+                    continue
+                cd = flow.cond_of(f, sb)
+                if cd.kind == "call" and cd.call.bb == c.bb:
+                    for (_, tgt) in cfg.bool_edges(f, sb, not cd.neg):
+                        vs = {st["rv"].get("variant") for b in cfg.reach_from(f, tgt) for st in f.stmts(b)
+                              if st.get("rv", {}).get("k") == "agg" and st["rv"].get("adt") == AE}
+                        vs2 = {st["rv"].get("variant") for st in f.stmts(tgt) if st.get("rv", {}).get("k") == "agg" and st["rv"].get("adt") == AE}
+                        table[lit] = sorted(vs2 or vs)
+        want = {"html": "Html", "htm": "Html", "xml": "Html"}
+        for ext, v in want.items():
+            ctx.ob("C02.S6.html-extension-selects-html-escaping", ext, table.get(ext) == [v],
+                   "the default auto-escape callback maps the extension `%s` to %s (documented: Html): templates with "
+                   "that extension would be rendered without escaping" % (ext, table.get(ext)), f.loc)
+        rs = [c for c in f.calls() if c.name.endswith("::rsplit") or c.name.endswith("::rsplit_once") or c.name.endswith("::rfind")]
+        ctx.ob("C02.S6.extension-is-the-last-dot-segment", dc, bool(rs),
+               "the callback no longer takes the text after the last `.` of the template name", f.loc)
+        ign = None
+        for o_ in query.named_consts(f):
+            if "IGNORED_EXTENSIONS" in o_:
+                ign = o_
+        ctx.sample({"auto-escape extension table": table, "ignored": ign})
+
     # ---- S5
     nf, nsets, nlo, nw = byte_sets(prog, "minijinja::utils::needs_html_escaping")
     hf, hsets, hlo, hw = byte_sets(prog, "<minijinja::utils::HtmlEscape<'_> as core::fmt::Display>::fmt")
